@@ -293,6 +293,10 @@ func (h *history) execute(d dev) []blockDigest {
 			}
 		},
 	})
+	if run.Panic != nil && run.PanicStage == "script" {
+		fmt.Fprintf(os.Stderr, "harness error: script panicked under %s at height %d: %v\n", d, run.PanicAt, run.Panic)
+		os.Exit(2)
+	}
 	if run.Panic != nil {
 		out = append(out, blockDigest{Height: run.PanicAt, Hash: fmt.Sprintf("panic: %v", run.Panic)})
 	}
